@@ -562,6 +562,36 @@ def m_backoff_on_top(rng, L):
     return join(L)
 
 
+def m_empty_order(rng, L):
+    """empty an order: delete every line of one or several sections (highest, a middle one, several trailing ones) and set
+    the count to 0 (consistent) or leave / falsify it (inconsistent)"""
+    n = order_of(L)
+    if n < 2:
+        return None
+    k = rng.randrange(6)
+    if k == 0 or k == 1:
+        orders = [n]                                   # the highest order
+    elif k == 2 and n >= 3:
+        orders = [rng.randrange(2, n)]                 # a middle order
+    elif k == 3 and n >= 3:
+        orders = list(range(rng.randrange(2, n), n + 1))   # several trailing orders
+    elif k == 4:
+        orders = list(range(2, n + 1))                 # everything above the unigrams
+    else:
+        orders = [rng.randrange(2, n + 1)]
+    variant = rng.choice(["zero", "zero", "zero", "zero", "keep", "one", "drop-header"])
+    out = []
+    for l in L:
+        if l.cls == "gram" and l.n in orders:
+            continue
+        if l.cls == "header" and l.n in orders and variant == "drop-header":
+            continue
+        if l.cls == "count" and l.n in orders and variant != "keep":
+            l.raw = b"ngram %d=%d" % (l.n, 1 if variant == "one" else 0)
+        out.append(l)
+    return join(out)
+
+
 def m_identity(rng, L):
     return join(L)
 
@@ -576,7 +606,7 @@ ARPA_MUTATORS = [
     ("whitespace", m_whitespace, 4), ("blank-lines", m_blank_lines, 1), ("huge-order", m_huge_order, 2), ("order-one", m_order_one, 1),
     ("word-count", m_word_count, 3), ("move-line", m_move_line_to_other_section, 2), ("remove-context", m_remove_context, 4),
     ("swap-sections", m_swap_sections, 1), ("trailing-garbage", m_trailing_garbage, 1), ("backoff-on-top", m_backoff_on_top, 2),
-    ("identity", m_identity, 1),
+    ("empty-order", m_empty_order, 4), ("identity", m_identity, 1),
 ]
 
 
